@@ -597,7 +597,9 @@ func (x *Exec) applyContract(s *State, c *Contract, key string, sig *types.Signa
 	if c.Allocates {
 		na := s.fresh("$alloc", "Int")
 		s.assume(app("Bool", ">=", na, s.alloc))
-		if c.AllocPlain {
+		if c.AllocPlain || x.notDigKey(key) {
+			// (no package other than dig can create a Scope or a
+			// graphHolder: nothing dig imports imports dig)
 			s.assume(w.plainGap(s.alloc, na))
 		}
 		if x.externalKey(key) {
@@ -664,6 +666,7 @@ func (x *Exec) applyContract(s *State, c *Contract, key string, sig *types.Signa
 		argEnv := &Env{s: s, vars: map[string]SVal{}}
 		x.bindCallArgs(argEnv, s, callInstr)
 		s.setLabel(lbl, rvs, argEnv.vars)
+		x.coverAfterCall(s, lbl)
 		if panicState != nil {
 			panicLabel = lbl + "_panic"
 		}
@@ -1159,6 +1162,17 @@ func (x *Exec) runDeferLoop(s *State, de *deferEntry, kind int) bool {
 	return true
 }
 
+// notDigKey: the contract belongs to a function or method of a package other
+// than dig itself (dig's internal packages included).
+func (x *Exec) notDigKey(key string) bool {
+	if strings.HasPrefix(key, "type:") {
+		return false
+	}
+	k := strings.TrimLeft(key, "(*")
+	i := strings.Index(k, ".")
+	return i >= 0 && k[:i] != "dig"
+}
+
 // externalKey: the contract belongs to a function or method of a package
 // outside the verified ones (reflect, errors, math/rand, ...).
 func (x *Exec) externalKey(key string) bool {
@@ -1170,6 +1184,12 @@ func (x *Exec) externalKey(key string) bool {
 	if i < 0 {
 		return false
 	}
-	// only package dig itself can allocate objects of dig's struct types
-	return k[:i] != "dig"
+	// only dig and its internal packages can allocate objects of their
+	// (tagged) struct types
+	for path, sp := range x.w.pkgs {
+		if sp != nil && sp.Pkg != nil && sp.Pkg.Name() == k[:i] && strings.HasPrefix(path, "go.uber.org/dig") {
+			return false
+		}
+	}
+	return true
 }
